@@ -18,7 +18,7 @@ BAD_IDS = [0, -1, 13, 14, 100, 2147483647, -2147483648, 257, 265, -251, 65546, 2
 # instructions a record may contain in the few-step streams: all modelled, none allocating / random / spawning
 SAFE_INSTR = ["NOOP", "INTEGER.+", "INTEGER.DUP", "INTEGER.SWAP", "BOOLEAN.NOT", "BOOLEAN.AND", "FLOAT.+", "CODE.DUP",
               "EXEC.DUP", "NAME.DUP", "LIST.ADD", "LIST.GET", "LIST.IVAL", "INTEGER.POP"]
-NAMES = ["A", "B", "X1", "foo"]
+NAMES = ["A", "B", "X1", "foo", " pad", "tail ", "in side"]
 
 
 def lit_atom(rng):
@@ -29,6 +29,7 @@ def lit_atom(rng):
     if k == 3: return IV([rng.randrange(0, 13) for _ in range(rng.randrange(0, 4))])
     if k == 4: return BV([rng.random() < 0.5 for _ in range(rng.randrange(0, 4))])
     if k == 5: return FV([rand_f32(rng) for _ in range(rng.randrange(0, 3))])
+    if rng.random() < 0.25: return IDX(rng.randrange(0, 4), rng.randrange(0, 6))       # an INDEX literal is not an INTEGER value
     return Z(rng.randrange(0, 10))
 
 
